@@ -74,9 +74,10 @@ Theorem C05_str_round_trip : forall r : re, no_empty r -> parse_regex (pr_py r) 
 Proof. exact str_round_trip. Qed.
 Print Assumptions C05_str_round_trip.
 
-(* the mirror of pyformlang's own parser (Model/RegexReader.v) reads back the text of str() of every expression without a Kleene
-   star (partial: the star case, where _compute_precedence inserts parentheses, is covered by the correspondence only) *)
-From PFL Require Import Model.RegexReader Proofs.RegexReader.
-Theorem C05_parser_mirror_reads_str_partial : forall r : re, no_empty r -> no_star r -> reader_regex (pr_py r) = inl r.
-Proof. exact reader_str_round_trip. Qed.
-Print Assumptions C05_parser_mirror_reads_str_partial.
+(* the mirror of pyformlang's own parser (Model/RegexReader.v: outer-parenthesis stripping, _compute_precedence with its insertion of
+   parentheses around the operand of a star, the split into first group / operator / rest) reads back the text of str() of every
+   expression; proved through bracket-depth lemmas for _get_parenthesis_depths / index(0, from) *)
+From PFL Require Import Model.RegexReader Proofs.RegexReader Proofs.RegexReaderStar.
+Theorem C05_parser_mirror_reads_str : forall r : re, no_empty r -> reader_regex (pr_py r) = inl r.
+Proof. exact reader_str_round_trip_all. Qed.
+Print Assumptions C05_parser_mirror_reads_str.
